@@ -171,9 +171,11 @@ def run(ctx):
     # 4. the other direction (B2): executions composed by the library itself (ConfigLoader entry points, also with
     #    injected faults) and seeded user sessions are recorded and validated by TLC against Session.tla
     #    (spec/SessionTrace.tla; notes/C17_trace.md)
-    session_trace.run(ctx)
+    # (what the B1 replays found is reported first: a failure of the trace part must not hide it)
     for sig, d in sorted(found.items()):
         ctx.violation("%s:%s" % (d["observer"], d["history"]), d)
+    found.clear()
+    session_trace.run(ctx)
     ctx.cov["rule"] = (
         "Session.tla: TLC enumerates every behaviour (nesting <= 2-3, every Raise/Abandon point, faults after the k-th inner "
         "evaluation of each computation) up to the depth bound and checks Transparent; every graph edge returning to top "
